@@ -196,6 +196,20 @@ func c08One(a, b *c08Side, p *c08Prog, cs *c08Case) (d []string, totalSteps int)
 		if ok, addr := a.mem.EqualContents(b.mem); !ok {
 			d = append(d, fmt.Sprintf("memory[%04X] differs after Run #%d", addr, run+1))
 		}
+		// the breakpoint set belongs to the embedder: Run must not change it
+		if !cs.NilMap {
+			if a.cpu.BreakPoints == nil || len(a.cpu.BreakPoints) != len(cs.BPs) {
+				d = append(d, fmt.Sprintf("Run #%d changed the BreakPoints map (now %d entries, was %d)", run+1, len(a.cpu.BreakPoints), len(cs.BPs)))
+			} else {
+				for _, bp := range cs.BPs {
+					if _, ok := a.cpu.BreakPoints[bp]; !ok {
+						d = append(d, fmt.Sprintf("Run #%d removed breakpoint %04X from the map", run+1, bp))
+					}
+				}
+			}
+		} else if a.cpu.BreakPoints != nil {
+			d = append(d, fmt.Sprintf("Run #%d replaced the nil BreakPoints map", run+1))
+		}
 		// properties of the stop itself
 		if errR == nil && len(d) == 0 {
 			if !a.cpu.HALT || a.mem.Peek(a.cpu.PC) != 0x76 {
